@@ -157,6 +157,11 @@ def gen_case(seed, tier):
                 ['Fold', ['T', 'T', []], ['fn', 'int'], ['fn', 'add']]]
         for fam in rng.sample(fams, rng.randint(2, 4)):
             pool.append({'target': copy.deepcopy(tt), 'spec': fam, 'kw': {}})
+    # several Regex specs with the SAME pattern that differ only in how they are applied
+    if rng.random() < 0.2:
+        pat, txt = rng.choice([['b+', 'abbc'], ['[a-c]{2}', 'xabx'], ['a', 'ab']])
+        for fn in rng.sample([None, 'search', 'match', 'fullmatch'], rng.randint(2, 3)):
+            pool.append({'target': txt, 'spec': ['Coalesce', [['Match', ['Regex', pat, fn]]], {'default': 'no-match'}], 'kw': {}})
     nops = rng.randint(4, 40 if tier == 'thorough' else 28)
     ops = []
     thorough = tier == 'thorough'
@@ -186,9 +191,15 @@ def gen_case(seed, tier):
         elif r < 0.93:
             ops.append({'op': 'linecrash', 'i': i, 'at': rng.randint(1, 500 if thorough else 250),
                         'exc': rng.choice(['Exception', 'BaseException'])})
-        elif r < 0.98:
+        elif r < 0.97:
             ops.append({'op': 'pair', 'i': i, 'j': rng.randrange(len(pool)), 'switches': {},
                         'p_point': rng.choice([0.3, 1.0]), 'line_p': rng.choice([0, 0, 0.05])})
+        elif r < 0.99:
+            # a registration on SOME OTHER Glommer: not a registration of this call's registry
+            op = rng.choice(list(REG_HANDLERS))
+            ops.append({'op': 'side_register', 'reg': {'type': rng.choice(REG_TYPES), 'op': op,
+                                                       'h': rng.choice(REG_HANDLERS[op]), 'exact': False}})
+            ops.append({'op': 'glommer', 'i': i, 'defaults': True})
         else:
             ops.append({'op': 'gc'})
     return {'prop': PROP, 'seed': seed, 'knobs': knobs, 'pool': pool, 'shared': [], 'ops': ops,
@@ -271,6 +282,7 @@ def run_case(case, gen_rng=None):
     trace = []
     called = {}
     state_epoch = 0
+    side_glommers = []
     nontrivial = False
 
     def st(name, n=1):
@@ -348,6 +360,12 @@ def run_case(case, gen_rng=None):
                 G.core._DEFAULT_SCOPE[G.core.TargetRegistry]._type_cache = {}
             state_epoch += 1
             st('drops')
+        elif kind == 'side_register':
+            if not side_glommers:
+                side_glommers.append(G.Glommer())
+            apply_reg(side_glommers[0], op['reg'])
+            state_epoch += 1
+            st('side_registers')
         elif kind == 'register':
             apply_reg(G, op['reg'])
             regs = regs + [op['reg']]
